@@ -71,9 +71,9 @@ fn bitstack_lifo() {
     let mut st = BitStack128 { inner, height };
     st.push(bit);
     let r = st.pop();
-    assert!(r == Some(bit), "C15:bitstack_push_pop.lifo");
-    assert!(st.height == height, "C15:bitstack_push_pop.height_restored");
-    assert!(bit_at(st.inner, i) == bit_at(inner, i), "C15:bitstack_push_pop.contents_restored");
+    assert!(r == Some(bit), "C15:bitstack_lifo.lifo");
+    assert!(st.height == height, "C15:bitstack_lifo.height_restored");
+    assert!(bit_at(st.inner, i) == bit_at(inner, i), "C15:bitstack_lifo.contents_restored");
 }
 
 // The documented limit is sharp: pushing onto a full stack (height == 128) is outside the contract.  This
